@@ -4,7 +4,7 @@
    terminated (no NoFuel), stayed inside every buffer it touched (no Oob), met no undefined behaviour (no Ub) and
    returned v, where v is written with the textbook functions of lib/Str.v and C13_Text.v. *)
 From Coq Require Import NArith ZArith Bool List.
-From CppUVerif Require Import lib.Str C13_Text C13_Model C13_Proofs C13_Replace C13_Printable C13_Concat C13_Alloc C13_Main.
+From CppUVerif Require Import lib.Str lib.CSem gen.Gen_Leaf C13_Text C13_Model C13_Proofs C13_Replace C13_Printable C13_Concat C13_Alloc C13_Main C13_LeafTie.
 Import ListNotations.
 Local Open Scope N_scope.
 
@@ -168,3 +168,12 @@ Print Assumptions C13_run_safe.
 Theorem C13_run_meets_spec : forall o, valid o = true -> spec o (run o) = true.
 Proof. exact run_meets_spec. Qed.
 Print Assumptions C13_run_meets_spec.
+
+(* the character predicates and ToLower of the model ARE the source: equal, on every char value, to the definitions that
+   tools/cxx2coq.py regenerates from clang's AST of SimpleString.cpp on every run (gen/Gen_Leaf.v) *)
+Theorem C13_leaf_functions_are_the_source : forall c, c < 256 ->
+    leaf_isDigit (sc c) = b2z (isDigit c) /\ leaf_isSpace (sc c) = b2z (isSpace c) /\
+    leaf_isControl (sc c) = b2z (isControl c) /\ leaf_isControlWithShortEscapeSequence (sc c) = b2z (isControlShort c) /\
+    leaf_ToLower (sc c) = sc (to_lower c).
+Proof. exact C13_LeafTie.C13_leaf_functions_are_the_source. Qed.
+Print Assumptions C13_leaf_functions_are_the_source.
